@@ -151,7 +151,7 @@ class HTTP(BaseComponent):
 
         # send HTTP response status line and headers
         res.prepare()
-        if res.close and sock.fileno() >= 0:
+        if res.close and sock is not None and sock.fileno() >= 0:
             # nothing that arrives from now on is a request any more
             self._closing.add(sock)
         self.fire(write(sock, b'%s%s' % (bytes(res), bytes(headers))))
